@@ -265,7 +265,7 @@ impl CaseEngine for C07 {
                 // (spins while opening, spins while reading, in-repo function issuing the storage calls)
                 let spins = panicmon::catch(|| {
                     let ctl = vcore::wrap::Ctl::new();
-                    ctl.budget.store(2_000_000, std::sync::atomic::Ordering::Relaxed);
+                    ctl.budget.store(300_000, std::sync::atomic::Ordering::Relaxed);
                     let mut in_open = false;
                     let mut len_after_recovery = 0u64;
                     if let Ok(f) = <agdb::FileStorage as agdb::StorageData>::new(&p) {
@@ -285,14 +285,14 @@ impl CaseEngine for C07 {
                 if let Ok((in_open, true, frame, len_after_recovery)) = &spins {
                     rep.count("mutants_skipped_step_budget_exceeded");
                     if *in_open {
-                        // "opening ... either succeeds or returns an error": 2 million storage calls for a file of a few KiB is neither
+                        // "opening ... either succeeds or returns an error": 300,000 storage calls for a file of a few KiB is neither
                         // write-ahead-log recovery may have blown the file up to a huge sparse size which is then walked record by record
                         let extended = *len_after_recovery > 64 * (m.data.len() as u64 + 1024);
                         let sig = format!("C07:open_exceeds_the_step_budget:{frame}{}", if extended { ":after_recovery_extended_the_file_enormously" } else { "" });
                         if fired.insert(sig.clone()) {
                             rep.violation(
                                 &sig,
-                                &format!("{dop}+{wop}: opening a damaged file of {} bytes issued more than 2,000,000 storage calls without returning (loop in {frame}; file length after write-ahead-log recovery: {len_after_recovery})", m.data.len()),
+                                &format!("{dop}+{wop}: opening a damaged file of {} bytes issued more than 300,000 storage calls without returning (loop in {frame}; file length after write-ahead-log recovery: {len_after_recovery})", m.data.len()),
                                 json!({"engine":"c07","case":case,"seed":args.u64("seed",1),"tier":args.str("tier","quick"),"variant":"prescreen",
                                        "data_operator":dop,"wal_operator":wop,"data_hex":hex(&m.data),"wal_hex":hex(&m.wal)}),
                             );
